@@ -262,6 +262,31 @@ def run(ctx):
     batch_script_set(ctx)
     # reviewed reference of the storage functions' durable writes (engine/census.py)
     from rules import census_fns
+    # ---- r7 the rewind of set_scripts is not overwritten (added after seeded C09-5) ---------------------------------------
+    # set_scripts holds the matched-blocks write lock (r4) so that its rewind of the filter progress cannot interleave with a
+    # filter batch or an arriving block.  That only helps if every OTHER function that moves the progress reads it and writes it
+    # under the same lock: a batch that passed `min_filtered + 1 == start_number` before the rewind and writes afterwards puts the
+    # progress back past blocks the new script has never been matched against.
+    from rules import C17 as _c17
+    from engine.locks import Locks as _Locks
+    _L = _Locks(P)
+    _L.protected('L_mb', 'write', exempt_callers=set(_c17.EXEMPT))
+    _n = 0
+    for _b in P.bodies:
+        if _b.promoted is not None or _b.name in _c17.EXEMPT or P.parent_fn(_b).name in _c17.EXEMPT:
+            continue
+        _keys = P.call_keys(_b)
+        if not any(k in ('Storage::update_min_filtered_block_number', 'FilterProtocol::update_min_filtered_block_number', 'Storage::update_block_number',
+                         'Storage::add_matched_blocks') for _, k, _t in _keys):
+            continue
+        for _bid, _k, _t in _keys:
+            if _k in _c17.PROGRESS_READERS or _k in ('Storage::update_min_filtered_block_number', 'Storage::update_block_number', 'Storage::add_matched_blocks'):
+                _n += 1
+                _held = bool(_L.held_at(_b, _bid, 'L_mb', 'write')) or _L._last_body_protected(_b, _bid)
+                ctx.ob('C09.r7', _b.name, '%s runs under the lock that set_scripts holds (its rewind cannot be overwritten by a batch decided before it)' % _k,
+                       _held, at=_t.span, failing_history=None if _held else 'BlockFilters batch 31..32 passes the continuity test, set_scripts(partial, new script @10) rewinds to 10, '
+                       'the batch then stores progress 32: blocks 11..30 are never matched for the new script')
+    ctx.floor('C09.r7', 'progress reads / writes outside set_scripts', _n, 4)
     census_fns.run(ctx, 'C09')
 
 
